@@ -348,6 +348,12 @@ def run(chk):
                       'every normal path with its own value; NM and SI pass the HL7 maxima 16 and 4')
     length_guard(chk, ix)
 
+    chk.rule('C13-G', 'the date / time / number helpers refuse (ValueError and the datatype exceptions) under the same conditions as in the reviewed tree')
+    from . import guardrules
+    ng_ = guardrules.check(chk, c, 'C13-G', ['utils._get_date_format', 'utils._get_timestamp_format', 'utils.get_datetime_info', 'utils._datetime_obj_factory', 'base_datatypes.TM.__init__', 'base_datatypes.DateTimeDataType.__init__', 'base_datatypes.NM.__init__', 'base_datatypes.SI.__init__', 'factories.datatype_factory', 'factories.numeric_factory', 'factories.sequence_id_factory'])
+    chk.floor('refusal predicates compared (C13-G)', ng_, 1)
+
+
 
 TEXT_FORMS = ("f'{%s}'", "'{0}'.format(%s)", "'{}'.format(%s)", 'str(%s)', "'%%s' %% %s", 'format(%s)', "'%%s' %% (%s,)", 'text_type(%s)')
 HL7_MAX = {'NM': 16, 'SI': 4}      # HL7 v2 chapter 2A (also stated in the class documentation)
